@@ -697,24 +697,25 @@ Definition guard_mask (s w : vec) : res unit :=
 (* wave 5                                                                                     *)
 (* ======================================================================================== *)
 (* sptensor.scale(factor, dims) with a numpy VECTOR of length flen as factor: one mode, and the vector has that mode's length.
-   The code: the generated tt_dimscheck; "if self.nnz == 0:" compares shapes for tensor / sptensor factors only and returns the
-   copy (C19-N27, open: a receiver that stores no entry answers whatever the vector's length and however many modes are listed);
-   otherwise "if factor.shape[0] != shapeArray[dims]" — the truth value of a comparison vector, which numpy refuses unless it has
-   exactly one entry (an empty mode list cannot come out of tt_dimscheck's callers here: the stream lists at least one mode) *)
+   The code: the generated tt_dimscheck; "if self.nnz == 0:" compares factor.shape with tuple(shape[dims]) (C19-N27 repaired,
+   98f7017: for a 1-d vector that is "one mode is listed and the vector has its length") and returns the copy; otherwise
+   "if factor.shape[0] != shapeArray[dims]" — the truth value of a comparison vector, which numpy refuses unless it has exactly one
+   entry (an empty mode list cannot come out of tt_dimscheck's callers here: the stream lists at least one mode) *)
 Definition pre_sptensor_scale_arr (s : vec) (empty : bool) (flen : Z) (d : vec) : bool :=
   modes_ok (ndim s) d && match d with [m] => flen =? sz s m | _ => false end.
 Definition guard_sptensor_scale_arr (s : vec) (empty : bool) (flen : Z) (d : vec) : res unit :=
   match tt_dimscheck (ndim s) None (Some d) None with
   | Err => Err
-  | Ok (sd, _) => if empty then Ok tt else match sd with [m] => chk (flen =? sz s m) | _ => Err end
+  | Ok (sd, _) => if empty then match sd with [m] => chk (flen =? sz s m) | _ => Err end
+                  else match sd with [m] => chk (flen =? sz s m) | _ => Err end
   end.
 
 (* tensor.ttsv(vector, skip_dim) with the default algorithm (version 2; source comment "Sizes of all modes must be the same"):
-   "skip_dim < 0" is the only test written down.  dnew = skip_dim + 1 modes are kept, drem = ndims - dnew are multiplied: for
-   i = drem .. 1 the data is reshaped to (sz ** (dnew + i - 1), sz) with sz = shape[0] (numpy: the element count must be
-   sz ** ndims at the first step, after which it stays a power of sz) and multiplied by the vector (numpy: length sz); with
-   nothing to multiply the result is reshaped to dnew modes of size sz when dnew >= 2 (numpy: element count sz ** dnew).
-   Nothing compares the mode sizes with each other or skip_dim with ndims: C19-N28, open *)
+   "skip_dim < 0", then (C19-N28 repaired, 0478ea5) "any(n != sz for n in self.shape) or skip_dim >= d" with sz = shape[0],
+   skip_dim = dnew - 1.  dnew = skip_dim + 1 modes are kept, drem = ndims - dnew are multiplied: for i = drem .. 1 the data is
+   reshaped to (sz ** (dnew + i - 1), sz) (numpy: the element count must be sz ** ndims at the first step, after which it stays a
+   power of sz) and multiplied by the vector (numpy: length sz); with nothing to multiply the result is reshaped to dnew modes of
+   size sz when dnew >= 2 (numpy: element count sz ** dnew) *)
 Definition ttsv_dnew (skip : option Z) : Z := match skip with None => 0 | Some k => k + 1 end.
 Definition cubical (s : vec) : bool := forallb (fun x => x =? sz s 0) s.
 Definition pre_ttsv (s : vec) (vlen : Z) (skip : option Z) : bool :=
@@ -723,15 +724,23 @@ Definition pre_ttsv (s : vec) (vlen : Z) (skip : option Z) : bool :=
 Definition guard_ttsv (s : vec) (vlen : Z) (skip : option Z) : res unit :=
   chk (match skip with Some k => 0 <=? k | None => true end) ;;
   let d := ndim s in let n0 := sz s 0 in let dnew := ttsv_dnew skip in
+  (if negb (cubical s) || (d <=? dnew - 1) then Err else Ok tt) ;;
   if 0 <? d - dnew then chk (zprod s =? n0 ^ d) ;; chk (n0 =? vlen)
   else if 2 <=? dnew then chk (zprod s =? n0 ^ dnew) else Ok tt.
 
 (* ttensor.reconstruct(samples, modes), one sample array per listed mode: "len(samples) > 0 and len(samples) != len(modes)" is the
-   only written test; then "full_samples[mode] = sample" on a Python list of ndims entries (IndexError outside [-ndims, ndims); a
-   negative mode wraps around, a repeated mode overwrites: C19-N29, open); the samples of the stream (row 0) are valid everywhere *)
+   only test written in /repo HEAD; then "full_samples[mode] = sample" on a Python list of ndims entries (IndexError outside
+   [-ndims, ndims); a negative mode wraps around, a repeated mode overwrites: C19-N29, open on HEAD); the samples of the stream
+   (row 0) are valid everywhere.  guard_reconstruct = the method of /repo HEAD; guard_reconstruct_fixed = the method with
+   fixes/C19-N29.diff (9d2314a, pending): "any(not 0 <= mode < self.ndims ...) or len(set(mode_list)) != len(mode_list)" between the
+   count test and the assignments.  The correspondence runs the guard of the tree the finding's status stands for (c19_ops: FIXED) *)
 Definition pre_reconstruct (s modes : vec) (nsamp : Z) : bool := modes_ok (ndim s) modes && (nsamp =? zlen modes).
 Definition guard_reconstruct (s modes : vec) (nsamp : Z) : res unit :=
   chk (nsamp =? zlen modes) ;;
+  chk (forallb (fun m => (- ndim s <=? m) && (m <? ndim s)) modes).
+Definition guard_reconstruct_fixed (s modes : vec) (nsamp : Z) : res unit :=
+  chk (nsamp =? zlen modes) ;;
+  (if existsb (fun m => negb (in_range (ndim s) m)) modes || negb (nodupb modes) then Err else Ok tt) ;;
   chk (forallb (fun m => (- ndim s <=? m) && (m <? ndim s)) modes).
 
 (* ktensor.score(other, threshold): "self.shape == other.shape", "0.0 <= threshold <= 1.0" (thr_ok: the descriptor says whether the
